@@ -153,7 +153,10 @@ Definition create_reader (c : cfg) (rs : option resolver) (fs : filesys) (k : ki
                      | Some ct => (ev1 ++ [EvOpen k (TFile p) (ds_sysid d)], CrOk (ds_sysid d) (Some ct))
                      | None => (ev1 ++ [EvOpen k (TFile p) (ds_sysid d)], CrNone)   (* makeStream returned 0 *)
                      end
-        | TNet u => (ev1 ++ [EvOpen k (TNet u) (ds_sysid d)], CrThrow FNet)
+        | TNet u => match fs u with                    (* the net accessor is asked; [fs] also maps URL texts *)
+                    | Some ct => (ev1 ++ [EvOpen k (TNet u) (ds_sysid d)], CrOk (ds_sysid d) (Some ct))
+                    | None => (ev1 ++ [EvOpen k (TNet u) (ds_sysid d)], CrThrow FNet)   (* NetAccessorException *)
+                    end
         end
       end
   end.
@@ -343,7 +346,8 @@ Definition schema_open (fs : filesys) (x : ssrc) : list event * so_result :=
   | SsDef d => ([EvOpen KSchema (ds_open d) (ds_sysid d)],
                 match ds_open d with
                 | TFile p => match fs p with Some ct => SoGot ct | None => SoMissing end
-                | TNet _ => SoThrow FNet          (* the exception ends in SchemaScanFatalError *)
+                | TNet u => match fs u with Some ct => SoGot ct
+                                        | None => SoThrow FNet end  (* the exception ends in SchemaScanFatalError *)
                 end)
   | _ => ([], SoMissing)
   end.
